@@ -182,6 +182,9 @@ pub fn worker_main<P: Prop>(tier: Tier, seed: u64, shard: u64, of: u64, from: u6
             cd = crate::prng::mix(cd, crate::prng::tag(&v.signature()));
         }
         run_digest = run_digest.wrapping_add(splitmix64(i ^ cd.rotate_left(17)));
+        if std::env::var("MP4SIM_CASE_DIGESTS").is_ok() {
+            eprintln!("CD {i} {cd:016x}");
+        }
         if sample_budget > 0 && (i / of) % 97 == 3 {
             let js = serde_json::to_value(&case).unwrap();
             if js.to_string().len() < 6000 {
